@@ -149,6 +149,13 @@ class Batch:
 
     def build(self):
         t0 = time.time()
+        mut = os.environ.get("VERIF_BIND_MUTATE")
+        if mut:
+            # test facility (README "checking the checks"): a sed script applied to the generated bindings
+            # before compilation = a property-breaking edit of the generator's output, without touching /repo
+            for f in sorted(os.listdir(os.path.join(self.dir, "src"))):
+                if f.startswith("w") and f.endswith(".rs"):
+                    sh(["sed", "-i", "-E", mut, os.path.join(self.dir, "src", f)])
         # keep Cargo.lock of earlier builds if present (offline resolution is deterministic anyway)
         env = {"CARGO_TARGET_DIR": BIND_TARGET, "RUSTFLAGS": ""}
         rc, out = sh(["cargo", "build", "--offline", "--quiet"], cwd=self.dir, timeout=3000, env=env)
@@ -367,9 +374,11 @@ class Runner:
             pass
         self.native.start()
 
+    flags_mode = "zext"
+
     def rust_observe(self, ty, val):
         """model of the code (RustProfile.rustObserve): the value Rust code observes when the host sends val"""
-        ans = self.host.rq(f"rustobserve|{ty}|{val}")
+        ans = self.host.rq(f"rustobserve|{self.flags_mode}|{ty}|{val}")
         if ans is None: raise Crash("m_host died")
         return ans[3:] if ans.startswith("ok ") else None
 
@@ -861,7 +870,7 @@ def make_items(rng, n, features, corpus, replay_item=None):
     return items, stats
 
 
-def prune_batches(keep=12):
+def prune_batches(keep=30):
     if not os.path.isdir(BIND): return
     ds = sorted((os.path.getmtime(os.path.join(BIND, d)), d) for d in os.listdir(BIND))
     for _, d in ds[:-keep]:
@@ -874,6 +883,18 @@ def prepare(c):
     return emitter, host
 
 
+def iter_batches(c, items, emitter, dropped, batch_size=20):
+    """generator form of build_all: each batch is built right before it is used (bounded disk use)"""
+    for b0 in range(0, len(items), batch_size):
+        chunk = items[b0:b0 + batch_size]
+        name = "b-" + hashlib.sha1((worlds_spec(chunk) + os.environ.get("VERIF_BIND_MUTATE", "")).encode()).hexdigest()[:12]
+        batch, dr = build_batches(c, name, chunk, emitter)
+        for k, e in dr.items(): dropped[b0 + k] = e
+        if batch is not None:
+            yield batch, [b0 + k for k in batch.index_map]
+        prune_batches()
+
+
 def build_all(c, items, emitter, batch_size=20):
     """split into batches, build each (dropping items whose Rust does not compile).
     Returns [(batch, global index map)], dropped {global idx: error}"""
@@ -881,13 +902,28 @@ def build_all(c, items, emitter, batch_size=20):
     for b0 in range(0, len(items), batch_size):
         chunk = items[b0:b0 + batch_size]
         # item indices inside a batch are local; the package names keep the global index
-        name = "b-" + hashlib.sha1(worlds_spec(chunk).encode()).hexdigest()[:12]
+        name = "b-" + hashlib.sha1((worlds_spec(chunk) + os.environ.get("VERIF_BIND_MUTATE", "")).encode()).hexdigest()[:12]
         batch, dr = build_batches(c, name, chunk, emitter)
         for k, e in dr.items(): dropped[b0 + k] = e
         if batch is not None:
             out.append((batch, [b0 + k for k in batch.index_map]))
     prune_batches()
     return out, dropped
+
+
+def flags_lift_rendering(batch):
+    """mini-translator for the one instruction rendering the value model depends on: how FlagsLift casts
+    each i32 word (`x as u32 as u64` = zext, `x as u64` = sext).  Returns zext | sext | None (no flags with
+    more than 32 members in this batch) | "?" (template not recognised = broken correspondence)"""
+    import re
+    seen = set()
+    for f in sorted(os.listdir(os.path.join(batch.dir, "src"))):
+        if not (f.startswith("w") and f.endswith(".rs")): continue
+        text = open(os.path.join(batch.dir, "src", f)).read()
+        for m in re.finditer(r"from_bits_retain\(\(\(([^()]*?) as (u64|u128)\) << \d+\) as _\)", text):
+            seen.add("zext" if m.group(1).rstrip().endswith(" as u32") else "sext")
+    if not seen: return None
+    return seen.pop() if len(seen) == 1 else "?"
 
 
 def classify_compile_error(err):
